@@ -188,8 +188,16 @@ func readsFor(sc sscope, d Data, name string, salt int, choose func(n int) int, 
 	}
 	path, s := paths[pi], samples[pi]
 	out := []Read{{Pos: "text", Cond: Cond{Path: path}}}
+	// a bound attribute named like the variable itself (<option :value="value">): plain path
+	// binding, no expression; attribute names are lower case in HTML
+	selfAttr := func() {
+		if bound && name == strings.ToLower(name) && (choose == nil || choose(2) == 0) {
+			out = append(out, Read{Pos: "nattr", Cond: Cond{Path: path}})
+		}
+	}
 	// struct items are addressed by Go field name inside expressions (the JSON tag of an item
 	// field is a path-lookup feature; expression access by tag belongs to C17, not to loops)
+	selfAttr()
 	if noExpr(path) || strings.HasSuffix(path, ".title") {
 		return out
 	}
@@ -489,6 +497,9 @@ func core1(full bool, yield func(Case) bool) {
 						if cb.tag != "template" && i%3 != 0 {
 							if p, _, _, ok := scalarPaths(inner, d, vn); ok && !noExpr(p[0]) {
 								l.Bind = p[0]
+								if vn == strings.ToLower(vn) && i%2 == 1 {
+									l.BindAs = vn // the bound attribute is named like the loop variable
+								}
 							}
 						}
 						switch cb.vif {
@@ -603,7 +614,26 @@ func core2(yield func(Case) bool) {
 									Else: &Else{ID: "E3", Sep: elseSeps[(i+1)%len(elseSeps)]}}
 								outer := &Loop{ID: "L1", Tag: "div", Idx: oi, Var: ov, Coll: xsN,
 									Body: []Node{only(probeOf("p1", o, d, pool, i, nil), "text", "tern"), {Loop: inner}, only(probeOf("p4", o, d, pool, i+1, nil), "text", "vif"), {Loop: tail}}}
+								// a component call with more props than a small scope map holds, named like the
+								// pool names: before the loops (one block of 8 in four), half of those inside the outer
+								// instance too
+								var call Node
+								if i/8%4 == 1 {
+									in := &Inc{}
+									for _, nm := range append(append([]string{}, pool...), "p1", "p2", "p3", "p4", "p5", "p6", "p7") {
+										if nm == strings.ToLower(nm) {
+											in.Props = append(in.Props, Prop{nm, "S" + nm})
+										}
+									}
+									call = Node{Inc: in}
+									if i/32%2 == 1 {
+										outer.Body = append([]Node{call}, outer.Body...)
+									}
+								}
 								c := Case{API: apis[i%3], Pretty: i%2 == 0, Data: d, Prog: []Node{{Loop: outer}, only(probeOf("p5", root, d, pool, i, nil), "text", "tern")}}
+								if call.Inc != nil {
+									c.Prog = append([]Node{call}, c.Prog...)
+								}
 								if !yield(c) {
 									return
 								}
@@ -621,6 +651,7 @@ func core2(yield func(Case) bool) {
 type gen struct {
 	t     *rapid.T
 	nils  bool // []any collections of this case may contain nil items
+	props []string // prop names of the component calls of this case (read inside later loops)
 	d     Data
 	ids   int
 	roots []string // every name the root data answers to
@@ -712,7 +743,7 @@ func (g *gen) data() {
 	switch g.int(0, 9, "root") {
 	case 0, 1, 2:
 		g.d.Root = "map"
-		for _, k := range []string{"name", "label", "total", "out", "v", "i", "Name"} {
+		for _, k := range []string{"name", "label", "total", "out", "v", "i", "Name", "value", "id"} {
 			if g.int(0, 2, "has"+k) > 0 {
 				g.d.Slots = append(g.d.Slots, Slot{k, g.scalar(k)})
 			}
@@ -742,8 +773,13 @@ func (g *gen) data() {
 	}
 }
 
-var freshVars = []string{"v", "w", "it", "e", "q"}
-var freshIdx = []string{"i", "j", "k", "n"}
+// fresh names; value / href / lang / id are also common attribute names (:value="value")
+var freshVars = []string{"v", "w", "it", "e", "q", "value", "href", "lang"}
+var freshIdx = []string{"i", "j", "k", "n", "id"}
+
+// incNames: prop names of generated component calls; they overlap with root keys, loop
+// variable names and names that are never defined.
+var incNames = []string{"label", "name", "total", "out", "v", "i", "value", "id", "w", "e", "q", "j", "k", "n", "it", "href", "lang", "p1", "p2", "p3", "p4"}
 
 // name draws a loop variable name: fresh, a root name, or an enclosing loop's variable.
 func (g *gen) name(fresh []string, outer []string, label string) string {
@@ -818,6 +854,18 @@ func (g *gen) cond(sc sscope, l *Loop, outerNames []string) *Cond {
 	return nil
 }
 
+// inc draws a component call with 9..12 static props (more than a small scope map holds).
+func (g *gen) inc() Node {
+	n := g.int(9, 12, "nprops")
+	names := rapid.SliceOfNDistinct(rapid.SampledFrom(incNames), n, n, rapid.ID[string]).Draw(g.t, "props")
+	in := &Inc{}
+	for _, nm := range names {
+		in.Props = append(in.Props, Prop{nm, "S" + nm})
+	}
+	g.props = uniq(append(g.props, names...))
+	return Node{Inc: in}
+}
+
 func (g *gen) chooser() func(int) int {
 	return func(n int) int { return g.int(0, n-1, "ch") }
 }
@@ -866,6 +914,15 @@ func (g *gen) loop(sc sscope, depth int, outerVars []string) []Node {
 	for k := g.int(0, 2, "nroot"); k > 0 && len(g.roots) > 0; k-- {
 		names = append(names, g.pick(g.roots, "rootname"))
 	}
+	// a component call inside the instance (its scope is opened and closed once per item)
+	var bodyInc []Node
+	if l.Tag != "template" && g.int(0, 7, "bodyinc") == 0 {
+		bodyInc = []Node{g.inc()}
+	}
+	// names of props of component calls: inside a loop they mean what they mean around it
+	for k := g.int(0, 2, "nprop"); k > 0 && len(g.props) > 0; k-- {
+		names = append(names, g.pick(g.props, "propname"))
+	}
 	if g.int(0, 2, "hasif") == 0 {
 		l.If = g.cond(inner, l, append(append([]string{}, outerVars...), g.roots...))
 		l.IfFirst = rapid.Bool().Draw(g.t, "iffirst")
@@ -873,6 +930,9 @@ func (g *gen) loop(sc sscope, depth int, outerVars []string) []Node {
 	if l.Tag != "template" && g.int(0, 1, "bind") == 1 {
 		if p, _, bound, ok := scalarPaths(inner, g.d, l.Var); ok && bound && !noExpr(p[0]) {
 			l.Bind = p[0]
+			if l.Var == strings.ToLower(l.Var) && g.int(0, 1, "bindas") == 0 {
+				l.BindAs = l.Var // :value="value" on the looped element
+			}
 		}
 	}
 	// now and then the looped element itself carries v-html / v-text of its item (no body then)
@@ -890,7 +950,7 @@ func (g *gen) loop(sc sscope, depth int, outerVars []string) []Node {
 	var nestedNames []string
 	// a quarter of the loops have a body of text alone (for <template v-for>: instances without
 	// any element); half of those still contain nested loops
-	textOnly := l.Fill == nil && g.int(0, 3, "textonly") == 0
+	textOnly := l.Fill == nil && len(bodyInc) == 0 && g.int(0, 3, "textonly") == 0
 	if depth < 3 && l.Fill == nil && !(textOnly && g.int(0, 1, "textleaf") == 0) {
 		for k := g.int(0, 2, "nnested"); k > 0; k-- {
 			inVars := uniq(append(append([]string{}, outerVars...), l.Var, l.Idx))
@@ -905,6 +965,7 @@ func (g *gen) loop(sc sscope, depth int, outerVars []string) []Node {
 		if textOnly {
 			l.Body = []Node{textOf(g.id("t"), inner, g.d, all, g.int(0, 19, "salt"), g.chooser())}
 		}
+		l.Body = append(bodyInc, l.Body...)
 	}
 	if len(nested) > 0 {
 		l.Body = append(l.Body, nested...)
@@ -932,6 +993,12 @@ func genCase(t *rapid.T) Case {
 	g := &gen{t: t}
 	g.data()
 	c := Case{API: g.pick([]string{"string", "fragment", "load"}, "api"), Pretty: rapid.Bool().Draw(t, "pretty"), Data: g.d}
+	// a third of the cases call a component with many props before the loops
+	if g.int(0, 2, "topinc") == 0 {
+		for k := g.int(1, 2, "ntopinc"); k > 0; k-- {
+			c.Prog = append(c.Prog, g.inc())
+		}
+	}
 	for k := g.int(1, 2, "ntop"); k > 0; k-- {
 		c.Prog = append(c.Prog, g.loop(sscope{}, 1, nil)...)
 	}
@@ -968,6 +1035,9 @@ func classify(c Case) (bool, []string) {
 			}
 			if l.Fill != nil {
 				cls["loop-root:"+l.Fill.Dir] = true
+			}
+			if l.BindAs != "" {
+				cls["bound-attr-named-like-loop-var(on loop root)"] = true
 			}
 			head := strings.SplitN(l.Coll, ".", 2)[0]
 			if strings.Contains(l.Coll, ".") {
